@@ -31,7 +31,8 @@ def runGlif (inp obs : List String) : Verdict :=
                  else if sem = "rejected" then ["mutation-rejected:" ++ clean mc] else []
   let f := (field inp "f").getD "-"
   let p1 := (field obs "p1").getD "?"
-  let tags := [kind, "glif-f" ++ f, "x-" ++ x] ++ (if p1 = "ok" then ["nt"] else ["rejected"])
+  let tags := [kind, "glif-f" ++ f, "x-" ++ x] ++ (if p1 = "ok" then ["nt"] else ["rejected"]) ++
+    ptTags ((field obs "pt").getD "")
   if p1 = "err" || p1 = "missing" then
     -- not accepted: outside the property; generated documents are all meant to be legal
     { agree := kind = "glifdata" || kind = "mutglif", spec := semSpec, tags := tags ++ (mc.splitOn "+").map ("mut-" ++ ·), model := "accepted" }
@@ -79,7 +80,7 @@ def run (inp obs : List String) : Verdict :=
   let ver := (field inp "v").getD "t"
   let l1 := (field first "l1").getD "?"
   let baseTags := [kind, "ufo-v" ++ ver, "target-" ++ (field inp "t").getD "absent"] ++
-    (match field inp "cd" with | some part => ["cdata-" ++ part] | none => []) ++
+    (match field inp "cd" with | some part => ["cdata-" ++ part] | none => []) ++ ptTags ((field first "pt").getD "") ++
     (if kind = "edit" then ["edited-after-load"] else [])
   if l1 = "panic" then { agree := false, spec := ["load-panic"], tags := baseTags, model := "-" }
   else if l1 ≠ "ok" then
